@@ -151,7 +151,15 @@ uint32_t ICMP::trailer_size() const {
             output += upper_bound - inner_pdu()->size();
         }
     }
+    else if (inner_pdu() && is_length_field_used()) {
+        // The length field counts 32 bit words, so the inner PDU has to be padded
+        output += get_adjusted_inner_pdu_size() - inner_pdu()->size();
+    }
     return output;
+}
+
+bool ICMP::is_length_field_used() const {
+    return are_extensions_allowed() && length() != 0;
 }
 
 void ICMP::set_echo_request(uint16_t id, uint16_t seq) {
@@ -222,8 +230,9 @@ void ICMP::write_serialization(uint8_t* buffer, uint32_t total_sz) {
     // If extensions are allowed and we have to set the length field
     if (are_extensions_allowed()) {
         uint32_t length_value = get_adjusted_inner_pdu_size();
-        // If the next pdu size is greater than 128, we are forced to set the length field
-        if (length() != 0 || length_value > 128) {
+        // If we have extensions and the next pdu size is greater than 128, we are 
+        // forced to set the length field
+        if (length() != 0 || (has_extensions() && length_value > 128)) {
             if (length_value) {
                 // If we have extensions, we'll have at least 128 bytes.
                 // Otherwise, just use the length 
@@ -272,6 +281,12 @@ void ICMP::write_serialization(uint8_t* buffer, uint32_t total_sz) {
         }
         // Now serialize the exensions where they should be
         extensions_.serialize(extensions_ptr, total_sz - (extensions_ptr - buffer));
+    }
+    else if (inner_pdu() && is_length_field_used()) {
+        // Pad the inner PDU to the next 32 bit boundary
+        const uint32_t inner_pdu_size = inner_pdu()->size();
+        memset(buffer + header_size() + inner_pdu_size, 0, 
+               get_adjusted_inner_pdu_size() - inner_pdu_size);
     }
 
     // Calculate checksum and write them on the serialized header
